@@ -15,8 +15,10 @@ import (
 	"github.com/enbility/spine-go/api"
 	"github.com/enbility/spine-go/model"
 	"github.com/enbility/spine-go/util"
-	"github.com/golanguzb70/lrucache"
 )
+
+// the amount of notify messages that are cached
+const notifyCacheSize = 100
 
 type reqMsgCacheData map[model.MsgCounterType]string
 
@@ -24,7 +26,9 @@ type Sender struct {
 	msgNum uint64 // 64bit values need to be defined on top of the struct to make atomic commands work on 32bit systems
 
 	// we cache the last 100 notify messages, so we can find the matching item for result errors being returned
-	datagramNotifyCache *lrucache.LRUCache[model.MsgCounterType, model.DatagramType]
+	// looking up a message does not keep it in the cache any longer, only the age counts
+	datagramNotifyCache map[model.MsgCounterType]model.DatagramType
+	datagramNotifyOrder []model.MsgCounterType // cached msgCounters, oldest first
 
 	writeHandler shipapi.ShipConnectionDataWriterInterface
 
@@ -39,9 +43,8 @@ type Sender struct {
 var _ api.SenderInterface = (*Sender)(nil)
 
 func NewSender(writeI shipapi.ShipConnectionDataWriterInterface) api.SenderInterface {
-	cache := lrucache.New[model.MsgCounterType, model.DatagramType](100, 0)
 	return &Sender{
-		datagramNotifyCache: &cache,
+		datagramNotifyCache: make(map[model.MsgCounterType]model.DatagramType),
 		writeHandler:        writeI,
 		reqMsgCache:         make(reqMsgCacheData),
 	}
@@ -52,7 +55,7 @@ func (c *Sender) DatagramForMsgCounter(msgCounter model.MsgCounterType) (model.D
 	c.muxNotifyCache.RLock()
 	defer c.muxNotifyCache.RUnlock()
 
-	if datagram, ok := c.datagramNotifyCache.Get(msgCounter); ok {
+	if datagram, ok := c.datagramNotifyCache[msgCounter]; ok {
 		return datagram, nil
 	}
 
@@ -287,7 +290,12 @@ func (c *Sender) Notify(senderAddress, destinationAddress *model.FeatureAddressT
 	}
 
 	c.muxNotifyCache.Lock()
-	c.datagramNotifyCache.Put(*msgCounter, datagram)
+	if len(c.datagramNotifyOrder) >= notifyCacheSize {
+		delete(c.datagramNotifyCache, c.datagramNotifyOrder[0])
+		c.datagramNotifyOrder = c.datagramNotifyOrder[1:]
+	}
+	c.datagramNotifyCache[*msgCounter] = datagram
+	c.datagramNotifyOrder = append(c.datagramNotifyOrder, *msgCounter)
 	c.muxNotifyCache.Unlock()
 
 	return msgCounter, c.sendSpineMessage(datagram)
